@@ -13,6 +13,7 @@ from ..seams import SimKill
 from ..world import real_eval, RecDict
 
 ID = 'C01'
+NEEDS_BUILTIN_WRAPPERS = True      # reads what the builtin monitor records (hooks / effect log)
 LEVEL = 'fault_enumeration'
 TIERS = {'quick': 1600, 'thorough': 60000}
 WALL_CAP = 120
